@@ -82,7 +82,7 @@ func (a *API) SearchPromises(id string, state string, tags map[string]string, li
 		}
 
 		// the cursor comes from the client, what it carries must be as valid as a fresh request
-		if cursor.Next == nil || cursor.Next.Id == "" || cursor.Next.Limit < 1 || cursor.Next.Limit > 100 {
+		if cursor.Next == nil || cursor.Next.Id == "" || cursor.Next.States == nil || cursor.Next.Limit < 1 || cursor.Next.Limit > 100 {
 			return nil, RequestValidationError(errors.New("The field cursor is invalid."))
 		}
 
